@@ -116,6 +116,35 @@ func (x *Run) modelStrCompare(st *State, a, b Val, rt types.Type) Val {
 
 func (x *Run) model(fr *Frame, st *State, fn *ssa.Function, args []Val, site ssa.Instruction) ([]Outcome, bool) {
 	name := fn.String()
+	switch name {
+	case "strings.IndexByte", "strings.Index", "strings.LastIndex", "strings.LastIndexByte", "strings.IndexRune", "strings.IndexAny":
+		r := x.ufApply(st, "ext."+x.fnShort(fn), args, fn.Signature.Results())
+		st.assume(fmt.Sprintf("(and (>= %s (- 1)) (< %s (strlen %s)))", r.T, r.T, args[0].T))
+		return single(st, r), true
+	case "context.WithValue":
+		// library contract: Value(WithValue(p,k,v), k) == v; other keys see the parent
+		r := x.ufApply(st, "ctx.with", args, fn.Signature.Results())
+		vf := x.d.fun("ctx.value", []Sort{SIface, SIface}, SIface)
+		st.assume(eq(app(vf, r.T, args[1].T), args[2].T))
+		st.assume(fmt.Sprintf("(forall ((k Iface)) (! (=> (not (= k %s)) (= (%s %s k) (%s %s k))) :pattern ((%s %s k))))", args[1].T, vf, r.T, vf, args[0].T, vf, r.T))
+		st.assume(not(eq(r.T, "inil")))
+		if args[2].Inner != nil {
+			// remember the dynamic type of the stored value
+			x.mu.Lock()
+			x.ctxInner[app(vf, r.T, args[1].T)] = *args[2].Inner
+			x.mu.Unlock()
+		}
+		return single(st, r), true
+	case "(*net/http.Request).Clone", "(*net/http.Request).WithContext":
+		// library contract: a copy of the request whose Context() is the given one
+		rt := fn.Signature.Results().At(0).Type()
+		el := rt.(*types.Pointer).Elem()
+		ref := x.allocObj(st, el, false)
+		x.storeStruct(st, ref, el, x.loadStruct(st, args[0].T, el))
+		cf := x.d.fun("ext."+x.fnShort(x.prog.LookupMethod(rt, nil, "Context"))+".r0", []Sort{SInt}, SIface)
+		st.assume(eq(app(cf, ref), args[1].T))
+		return single(st, Val{T: ref, S: SInt, Ty: rt, Fresh: true, Addr: &Addr{Kind: AObj, Ref: ref, Ty: el, Fresh: true}}), true
+	}
 	if (name == "strings.Compare" || name == "cmp.Compare[string]") && len(args) == 2 {
 		return single(st, x.modelStrCompare(st, args[0], args[1], fn.Signature.Results().At(0).Type())), true
 	}
@@ -143,6 +172,11 @@ func (x *Run) model(fr *Frame, st *State, fn *ssa.Function, args []Val, site ssa
 func (x *Run) modelInvoke(fr *Frame, st *State, recv Val, m *types.Func, args []Val, site ssa.Instruction) ([]Outcome, bool) {
 	full := m.FullName()
 	switch full {
+	case "(context.Context).Value":
+		vf := x.d.fun("ctx.value", []Sort{SIface, SIface}, SIface)
+		t := app(vf, recv.T, args[0].T)
+		v := Val{T: t, S: SIface, Ty: m.Type().(*types.Signature).Results().At(0).Type()}
+		return single(st, v), true
 	case "(error).Error":
 		f := x.d.fun("errmsg", []Sort{SIface}, SStr)
 		return single(st, Val{T: app(f, recv.T), S: SStr, Ty: types.Typ[types.String]}), true
